@@ -93,6 +93,14 @@ QuantN(op, all) ==
   /\ Len(stack) >= 3 /\ Top(0).ty = "a" /\ Top(1).ty = "a" /\ Top(2).ty = "a"
   /\ LET c1 == Cmp(op, Top(2).v, Top(1).v)  c2 == Cmp(op, Top(2).v, Top(0).v) IN
      Replace(3, B([op |-> IF all THEN "all" ELSE "any", cmp |-> op, l |-> Top(2).e, r |-> Top(1).e, r2 |-> Top(0).e], IF all THEN And(c1, c2) ELSE Or(c1, c2)))
+\* over a sub-query that returns no record the expansion is the empty disjunction / conjunction, whatever x is (NULL too):
+\* x op ANY (SELECT 1 WHERE FALSE) = F, x IN (..) = F;  x op ALL (..) = T, x NOT IN (..) = T
+QuantEmptyN(op, all) ==
+  /\ Len(stack) >= 1 /\ Top(0).ty = "a"
+  /\ Replace(1, B([op |-> IF all THEN "allempty" ELSE "anyempty", cmp |-> op, l |-> Top(0).e], IF all THEN "T" ELSE "F"))
+InEmptyN(neg) ==
+  /\ Len(stack) >= 1 /\ Top(0).ty = "a"
+  /\ Replace(1, B([op |-> IF neg THEN "notinempty" ELSE "inempty", l |-> Top(0).e], IF neg THEN "T" ELSE "F"))
 \* c IS [NOT] TRUE / FALSE / UNKNOWN: never UNKNOWN itself
 IsTernN(w, neg) ==
   /\ Len(stack) >= 1 /\ Top(0).ty = "b"
@@ -119,6 +127,8 @@ Next ==
      \/ CaseN
      \/ \E op \in CmpOps : \E all \in BOOLEAN : QuantN(op, all)
      \/ \E w \in {"T", "F", "U"} : \E neg \in BOOLEAN : IsTernN(w, neg)
+     \/ \E op \in {"=", "<", ">="} : \E all \in BOOLEAN : QuantEmptyN(op, all)
+     \/ \E n \in BOOLEAN : InEmptyN(n)
      \/ Paren
 
 Spec == Init /\ [][Next]_vars
